@@ -284,6 +284,15 @@ var c05cells = []c05cell{
 	uploadCell("upload-file:item-uploads-dotdot-other", []int{hlref.PrivUploadFile, hlref.PrivUploadAnywhere}, p1("Uploads/../other")),
 	uploadCell("upload-file:items-dir-uploads-dotdot", []int{hlref.PrivUploadFile, hlref.PrivUploadAnywhere}, p1("dir", "Uploads/..")),
 	uploadFolderCell("upload-folder:item-uploads-dotdot-other", []int{hlref.PrivUploadFolder, hlref.PrivUploadAnywhere}, p1("Uploads/../other")),
+	// a folder upload into a path that does not exist but is named like an upload folder, carried out on the transfer
+	// connection when it is granted: folders appear below "other" only for somebody who may create folders and upload anywhere
+	{name: "upload-folder:into-missing-path-named-uploads", effects: [][]int{{hlref.PrivUploadFolder, hlref.PrivUploadAnywhere, hlref.PrivCreateFolder}}, reveal: true, run: func(x *c05ctx) (*hlref.Tran, []bool) {
+		r := x.req.Request(hlref.TranUploadFldr, sfld(hlref.FFileName, "loot"), fld(hlref.FTransferSize, hlref.BE32(100)), fld(hlref.FFolderItemCount, hlref.BE16(1)), fld(hlref.FFilePath, p1("other", "New Uploads")))
+		if ref, ok := r.Get(hlref.FRefNum); okReply(r) && ok {
+			_, _ = x.w.FolderUpload("10.0.0.4:9", ref, []hlsim.UploadItem{{Path: [][]byte{[]byte("a.txt")}, Data: []byte("loot")}})
+		}
+		return r, []bool{exists(x.w.FileRoot, "other", "New Uploads")}
+	}},
 	// the drop box named with a trailing "." item: it is still the drop box
 	replyCell("list-files:dropbox-dot", []int{hlref.PrivViewDropBoxes}, hlref.TranGetFileNameList, hlref.FFileNameWithInfo, func(x *c05ctx) []hlref.Field { return []hlref.Field{fld(hlref.FFilePath, p1("Drop Box", "."))} }),
 	replyCell("list-files:dropbox-via-dotdot", []int{hlref.PrivViewDropBoxes}, hlref.TranGetFileNameList, hlref.FFileNameWithInfo, func(x *c05ctx) []hlref.Field { return []hlref.Field{fld(hlref.FFilePath, p1("Drop Box", "x", ".."))} }),
